@@ -67,6 +67,11 @@ def route_instances():
     out += [('patch', '/patch/bbb/hand_made/1709294400'), ('patch', '/patch/bbb/manifest_e/1709294400'),
             ('patch', '/patch/synempty/hand_made/1'), ('mps', '/mps/live/testmps/hand_made.mpd'),
             ('mps', '/mps/vod/testmps/hand_made.mpd'), ('mps', '/mps/vod/nosuch/hand_made.mpd'),
+            ('mps', '/mps/vod/mpsbroken/hand_made.mpd'), ('mps', '/mps/live/mpsbroken/hand_made.mpd'),
+            ('mps', '/mps/vod/mpsbroken/manifest_e.mpd'), ('mps', '/mps/vod/mpsunidx/hand_made.mpd'),
+            ('mps', '/mps/live/mpsunidx/hand_made.mpd'), ('manifest', '/dash/vod/synbroken/hand_made.mpd'),
+            ('manifest', '/dash/live/synbroken/hand_made.mpd'), ('media', '/dash/vod/synbroken/synbroken_v1/init.m4v'),
+            ('media', '/dash/vod/synbroken/synbroken_v1/1.m4v'), ('media', '/dash/odvod/synbroken/synbroken_v1.m4v'),
             ('mps-media', '/mps/vod/testmps/1/bbb_v7/2.m4v'), ('mps-media', '/mps/live/testmps/1/bbb_v7/init.m4v'),
             ('mps-media', '/mps/vod/testmps/99/bbb_v7/2.m4v'), ('mps-media', '/mps/vod/testmps/1/bbb_v7/time/960.m4v'),
             ('time', '/time/head'), ('time', '/time/xsd'), ('time', '/time/iso'), ('time', '/time/http-ntp'),
